@@ -54,6 +54,7 @@ class _:
                             "jgr_leader_id(data, 0), jgr_member_id(data, 0), "
                             "jgr_member_items(data, jgr_pos_members(data, 0), jgr_members_cnt(data, jgr_pos_members(data, 0))))"}
     raises = dict(ALLOWED_DECODE_ERRORS)
+    locals = {"members": "List[_JoinGroupResponseMember]"}
     loops = {"for#1": dict(index="i", decreases="len(data) - cur", inv=[
         "cur == jgr_members_pos(data, jgr_pos_members(data, 0), i)",
         "members == jgr_member_items(data, jgr_pos_members(data, 0), i)",
@@ -68,6 +69,7 @@ class _:
     ensures = {"func[C05,C15]": "result == _JoinGroupProtocolMetadata(cps_version(data, 0), "
                                 "cps_topic_items(data, 2, cps_topics_cnt(data, 2)), cps_user_data(data, 0))"}
     raises = dict(ALLOWED_DECODE_ERRORS)
+    locals = {"subscriptions": "List[str]"}
     loops = {"for#1": dict(index="i", decreases="len(data) - cur", inv=[
         "cur == cps_topics_pos(data, 2, i)",
         "subscriptions == cps_topic_items(data, 2, i)",
@@ -83,6 +85,10 @@ class _:
                             "result == ApiVersionResponse(avr_error_code(data, 0), avr_api_items(data, 6, avr_apis_cnt(data, 6))))",
                "errcode[C05]": "result.error_code == u_i16(data, 4)"}
     raises = {"BufferUnderflowError": "len(data) < 10", "struct.error": "(len(data) - 10) % 6 != 0"}
+    locals = {"api_versions": "List[ApiVersion]"}
+    # every ApiVersions entry is 6 bytes: positions are arithmetic (induction on k, scheme supplied, proved by z3)
+    lemmas = [dict(name="entry-positions", var="k", base="0", stmt="avr_apis_pos(data, 6, k) == 10 + 6 * k",
+                   use=["avr_apis_cnt(data, 6)"])]
     loops = {"for#1": dict(index="i", inv=[
         "api_versions == avr_api_items(data, 6, i)",
         "avr_apis_pos(data, 6, i) == 10 + 6 * i",
